@@ -57,6 +57,8 @@ PROPS = {
         assumptions=["EEA3.tla transcribes 3GPP TS 35.221 (official test sets as ASSUMEs) over ZUC.tla"],
     ),
     "C03": dict(
+        lemmas=[dict(module="LemmaFnAdd", inv="InvCanon", cinit="CInitN2", about="fn_add / fn_sub exact for all canonical 256-bit operands mod n (Apalache)"),
+                dict(module="LemmaFnAdd", inv="InvAny", cinit="CInitN2", expect="refuted", tier="thorough", about="negative control: not exact for arbitrary 256-bit operands (e + x1 >= 2n)")],
         level="model_checking",
         rule="events = sign calls under the RNG hook (nonce observed or scripted) and verify calls on library-made, spec-made and OpenSSL-made signatures; "
              "distinct = distinct (key, id, message, nonce); non-trivial = all",
@@ -126,10 +128,15 @@ PROPS = {
         models=[dict(module="AnchorSM2Codec", anchor=True, about="SM2Codec.tla reproduces the OpenSSL-made SPKI/PKCS#8 DER+PEM and decodes/re-encodes/decrypts the 18 OpenSSL GM/T 0009 ciphertexts")],
         stages=[dict(suite="sm2codec", trace="TraceSM2",
                      required_classes={"both": ["codec.encode/encode.plain", "codec.decode/decode.pk_bytes.roundtrip", "codec.decode/decode.spki_pem.openssl", "codec.decode/decode.pkcs8_pem.openssl",
-                                                "codec.decode/decode.pk_bytes.off-curve", "codec.asn1_enc/asn1.enc.x-lead0x1", "codec.asn1_enc/asn1.enc.y-lead0x1", "codec.asn1_dec/asn1.dec.openssl"]})],
+                                                "codec.decode/decode.pk_bytes.off-curve", "codec.asn1_enc/asn1.enc.x-lead0x1", "codec.asn1_enc/asn1.enc.y-lead0x1", "codec.asn1_enc/asn1.enc.x-lead0x2", "codec.asn1_enc/asn1.enc.y-lead0x2", "codec.asn1_dec/asn1.dec.openssl"]})],
         assumptions=["SM2Codec.tla: SEC1 / hex / SPKI / PKCS#8 templates / PEM / GM/T 0009 DER, anchored by OpenSSL-made documents (committed corpus, not a live OpenSSL)"],
     ),
     "C11": dict(
+        lemmas=[dict(module="LemmaFnAdd", inv="InvCanon", cinit="CInitP2", about="fp_add / fp_sub exact for all canonical operands mod p (Apalache)"),
+                dict(module="LemmaMont", inv="Inv", cinit="CInitP2", about="final correction of mont_mul mod p: result canonical, equals t or t-p, no overflow, for all z <= (p-1)^2"),
+                dict(module="LemmaMont", inv="Inv", cinit="CInitN2", tier="thorough", about="same for the Montgomery multiplication mod n"),
+                dict(module="LemmaFnAdd", inv="InvCanon", cinit="CInitN2", tier="thorough", about="fn_add / fn_sub exact mod n"),
+                dict(module="LemmaMont", inv="InvNoSub", cinit="CInitP2", expect="refuted", tier="thorough", about="negative control: the conditional subtraction is needed")],
         level="model_checking",
         rule="events = point operations on Jacobian/Montgomery representations, field operations on boundary/random canonical operands, all 8160 fixed-base table entries; "
              "distinct = distinct (operation, operands); non-trivial = all",
@@ -147,6 +154,9 @@ PROPS = {
         assumptions=["Weierstrass.tla is the affine group law; verdicts are on denotations (X/Z^2, Y/Z^3 of the Montgomery-decoded coordinates)", "BigNat Java override (cross-checked by MC_BigNat)"],
     ),
     "C16": dict(
+        lemmas=[dict(module="LemmaHashRange", inv="Bound", about="quotient estimate of mod_n_from_hash: qh <= q <= qh+1 for ALL 2^320 inputs (Apalache)"),
+                dict(module="LemmaHashRange", inv="Exact", about="the repaired reduction returns rem (then +1 in [1, N-1]) for ALL 2^320 inputs"),
+                dict(module="LemmaHashRange", inv="Pinned", expect="refuted", about="negative control: the pinned commit's reduction is refuted")],
         level="model_checking",
         rule="events = mod_n_from_hash on planned boundary / random 40-byte Ha, H1/H2 wrappers, key extraction for Annex / edge / random / crafted master keys; distinct = distinct inputs; non-trivial = all",
         models=[dict(module="AnchorSM9q", anchor=True, workers=1, tier="quick", about="SM9.tla reproduces the GM/T 0044.5 Annex extraction / signature / ciphertext values via the derived evaluator; G0 has order N"), dict(module="AnchorSM9", anchor=True, workers=1, tier="thorough", timeout=900, about="all GM/T 0044.5 Annex values incl. the definitional pairings, decryption and key exchange; G0Const = Pairing(P1,P2)")],
@@ -194,6 +204,9 @@ PROPS = {
         assumptions=["BN.tla: textbook R-ate pairing over Fp[w]/(w^12+2), final exponent by definition; anchored by the Annex value of e(P1, Ppub-s) through the signature example"],
     ),
     "C13": dict(
+        lemmas=[dict(module="LemmaMont", inv="Inv", cinit="CInitP9", about="final correction of the SM9 Montgomery multiplication mod p for all z <= (p-1)^2 (Apalache)"),
+                dict(module="LemmaFnAdd", inv="InvCanon", cinit="CInitP9", tier="thorough", about="SM9 fp_add / fp_sub exact for canonical operands"),
+                dict(module="LemmaFnAdd", inv="InvCanon", cinit="CInitN9", tier="thorough", about="mod_n_add / mod_n_sub exact for canonical operands")],
         level="model_checking",
         rule="events = tower operations on every zero pattern x boundary/random components, mod-N operations, G1/G2 operations on equal/opposite/infinity/generic operands in affine and Jacobian "
              "representations, Booth recodings, all 37x64 table entries; distinct = distinct (operation, operands); non-trivial = all",
@@ -216,7 +229,7 @@ PROPS = {
                 dict(module="MC_SignLive", cfg="MC_SignLive_neg", expect="violation", about="negative: a constructor admitting d = n-1 must yield the non-terminating lasso")],
         stages=[dict(suite="api", trace="TraceApi",
                      required_classes={"both": ["sm2.verify/sm2.verify.content.len0", "sm2.decrypt.uncomp/sm2.decrypt.uncomp.content.len<98", "sm4.new/sm4.new.content.len<16", "sm4.cbc_dec/sm4.cbc_dec.content.len0",
-                                                "sm9.decrypt/sm9.decrypt.content.len<98", "sm9.from_hash/sm9.from_hash.content.len<40", "sm9.from_hash/sm9.from_hash.content.len<98", "sm2.pkcs8_der/sm2.pkcs8_der.corrupted.len>=98",
+                                                "sm9.decrypt/sm9.decrypt.content.len<98", "sm9.from_hash/sm9.from_hash.content.len<40", "sm9.from_hash/sm9.from_hash.content.len<98", "sm2.pkcs8_der/sm2.pkcs8_der.corrupted.len>=98", "sm2.decrypt_asn1/sm2.decrypt_asn1.der-shape.len<98", "sm2.decrypt_asn1/sm2.decrypt_asn1.corrupted.len>=98",
                                                 "sm2.sign_with_key/sm2.sign_with_key.d=n-1.len<33", "sm9.verify/sm9.verify.arbitrary.len<33"]})],
         assumptions=["Api.tla: total outcome function; length rules of the standards"],
     ),
